@@ -577,6 +577,11 @@ class Parser:
                 e = self.parse_expr()
                 self.expect(')')
                 return ('old', e)
+            if s == '__CPROVER_loop_entry':
+                self.expect('(')
+                e = self.parse_expr()
+                self.expect(')')
+                return ('loop_entry', e)
             if s in ('__CPROVER_forall', '__CPROVER_exists'):
                 self.expect('{')
                 t = self.parse_type()
@@ -865,6 +870,10 @@ class VCGen:
             return st.env['__retval']
         if k == 'old':
             return self.ev(e[1], State(st.env['__old'], st.guard), line)
+        if k == 'loop_entry':
+            if '__loop_entry' not in st.env:
+                raise Unsupported("__CPROVER_loop_entry outside a loop contract")
+            return self.ev(e[1], State(st.env['__loop_entry'], st.guard), line)
         if k == 'comma':
             self.ev(e[1], st, line)
             return self.ev(e[2], st, line)
@@ -1256,6 +1265,7 @@ class VCGen:
             raise Unsupported("loop without invariant at line %d" % line)
         if init is not None:
             self.exec(init, st)
+        st.env['__loop_entry'] = dict(st.copy().env)   # values at loop entry, for __CPROVER_loop_entry(e)
         # base case
         for inv in lc['inv']:
             self.oblige(st, 'loop_invariant_base', line, "loop invariant holds on entry", as_bool(self.ev(inv, st, line)))
